@@ -48,8 +48,8 @@ pub(crate) fn encode_bytes<B: AsRef<[u8]> + ?Sized, W: Write>(
     mut writer: W,
 ) -> AvroResult<usize> {
     let bytes = s.as_ref();
-    encode_long(bytes.len() as i64, &mut writer)?;
-    write_all_counted(&mut writer, bytes)
+    let written_bytes = encode_long(bytes.len() as i64, &mut writer)?;
+    Ok(written_bytes + write_all_counted(&mut writer, bytes)?)
 }
 
 /// Write all of `bytes` to the writer and return how many bytes that is.
@@ -273,8 +273,15 @@ pub(crate) fn encode_internal<W: Write, S: Borrow<Schema> + Debug>(
                     .schemas
                     .get(*idx as usize)
                     .expect("Invalid Union validation occurred");
-                encode_long(*idx as i64, &mut *writer)?;
-                encode_internal(item, inner_schema, names, enclosing_namespace, &mut *writer)
+                let written_bytes = encode_long(*idx as i64, &mut *writer)?;
+                Ok(written_bytes
+                    + encode_internal(
+                        item,
+                        inner_schema,
+                        names,
+                        enclosing_namespace,
+                        &mut *writer,
+                    )?)
             } else {
                 error!("invalid schema type for Union: {schema:?}");
                 Err(Details::EncodeValueAsSchemaError {
@@ -286,10 +293,11 @@ pub(crate) fn encode_internal<W: Write, S: Borrow<Schema> + Debug>(
         }
         Value::Array(items) => {
             if let Schema::Array(ref inner) = *schema {
+                let mut written_bytes = 0;
                 if !items.is_empty() {
-                    encode_long(items.len() as i64, &mut *writer)?;
+                    written_bytes += encode_long(items.len() as i64, &mut *writer)?;
                     for item in items.iter() {
-                        encode_internal(
+                        written_bytes += encode_internal(
                             item,
                             &inner.items,
                             names,
@@ -298,7 +306,7 @@ pub(crate) fn encode_internal<W: Write, S: Borrow<Schema> + Debug>(
                         )?;
                     }
                 }
-                write_all_counted(writer, &[0u8])
+                Ok(written_bytes + write_all_counted(writer, &[0u8])?)
             } else {
                 error!("invalid schema type for Array: {schema:?}");
                 Err(Details::EncodeValueAsSchemaError {
@@ -345,11 +353,12 @@ pub(crate) fn encode_internal<W: Write, S: Borrow<Schema> + Debug>(
         }
         Value::Map(items) => {
             if let Schema::Map(ref inner) = *schema {
+                let mut written_bytes = 0;
                 if !items.is_empty() {
-                    encode_long(items.len() as i64, &mut *writer)?;
+                    written_bytes += encode_long(items.len() as i64, &mut *writer)?;
                     for (key, value) in items {
-                        encode_bytes(key, &mut *writer)?;
-                        encode_internal(
+                        written_bytes += encode_bytes(key, &mut *writer)?;
+                        written_bytes += encode_internal(
                             value,
                             &inner.types,
                             names,
@@ -358,7 +367,7 @@ pub(crate) fn encode_internal<W: Write, S: Borrow<Schema> + Debug>(
                         )?;
                     }
                 }
-                write_all_counted(writer, &[0u8])
+                Ok(written_bytes + write_all_counted(writer, &[0u8])?)
             } else {
                 error!("invalid schema type for Map: {schema:?}");
                 Err(Details::EncodeValueAsSchemaError {
